@@ -1346,7 +1346,11 @@ class UnitQuaternion(Quaternion):
         v = base.getvector(v, 3)
         base.isscalar(theta)
         theta = base.getunit(theta, unit)
-        return cls(s=math.cos(theta / 2), v=math.sin(theta / 2) * v, norm=False, check=False)
+        u = base.unitvec(v)
+        if u is None:
+            # zero axis: no rotation
+            return cls()
+        return cls(s=math.cos(theta / 2), v=math.sin(theta / 2) * u, norm=False, check=False)
 
     @classmethod
     def EulerVec(cls, w):
